@@ -407,6 +407,47 @@ pub fn run(tier: Tier) -> i32 {
             }
         }
     }
+    // deep and wide shapes: a moderate size that must simply work, and an extreme one (known findings:
+    // the recursive passes have no depth limit, the exhaustiveness check is exponential in the number of
+    // Boolean columns)
+    for (d, label) in [(100usize, "moderate"), (20000, "extreme")] {
+        let wrap = |body: String| format!("pub fn main(x: u8) -> u8 {{\n  {body}\n}}\n");
+        let shapes: Vec<(&str, String)> = vec![
+            ("parentheses", wrap(format!("{}x{}", "(".repeat(d), ")".repeat(d)))),
+            ("unary-operators", wrap(format!("{}x", "!".repeat(d)))),
+            ("operator-chain", wrap(format!("x{}", " ^ x".repeat(d)))),
+            ("blocks", wrap(format!("{}x{}", "{ ".repeat(d), " }".repeat(d)))),
+            ("casts", wrap(format!("x{}", " as u8".repeat(d)))),
+            ("else-if-chain", wrap(format!("if x == 0u8 {{ x }}{} else {{ x }}", (0..d).map(|k| format!(" else if x == {}u8 {{ x }}", k % 250 + 1)).collect::<String>()))),
+            ("array-literals", wrap(format!("let a = {}x{};\n  x", "[".repeat(d), "]".repeat(d)))),
+            ("tuple-patterns", wrap(format!("let {}y{} = x;\n  x", "(".repeat(d), ",)".repeat(d)))),
+            ("array-types", format!("pub fn main(x: u8, a: {}u8{}) -> u8 {{\n  x\n}}\n", "[".repeat(d), "; 1]".repeat(d))),
+            ("call-chain", {
+                let n = d.min(3000);
+                let mut s = String::new();
+                for k in 0..n {
+                    s.push_str(&format!("fn f{k}(x: u8) -> u8 {{\n  {}\n}}\n", if k + 1 < n { format!("f{}(x)", k + 1) } else { "x".to_string() }));
+                }
+                s.push_str("pub fn main(x: u8) -> u8 {\n  f0(x)\n}\n");
+                s
+            }),
+        ];
+        for (shape, text) in shapes {
+            cases.push(Case { kind: "deep-nesting", origin: format!("{shape}:{label}"), text: text.into_bytes() });
+        }
+    }
+    for (n, label) in [(10usize, "moderate"), (40, "extreme")] {
+        let cols: Vec<String> = (0..n).map(|k| format!("b{k}: bool")).collect();
+        let mut arms = String::new();
+        for k in 0..n {
+            let pats: Vec<&str> = (0..n).map(|j| if j == k { "true" } else { "_" }).collect();
+            arms.push_str(&format!("    ({}) => {}u8,\n", pats.join(", "), k % 200));
+        }
+        arms.push_str(&format!("    ({}) => 255u8,\n", vec!["false"; n].join(", ")));
+        let tuple: Vec<String> = (0..n).map(|k| format!("b{k}")).collect();
+        let text = format!("pub fn main({}) -> u8 {{\n  match ({}) {{\n{arms}  }}\n}}\n", cols.join(", "), tuple.join(", "));
+        cases.push(Case { kind: "wide-match", origin: format!("bool-columns:{label}"), text: text.into_bytes() });
+    }
     // token soup
     let soup_len = tier.pick(3usize, 4usize);
     let mut cur: Vec<Vec<&str>> = vec![vec![]];
@@ -497,11 +538,13 @@ pub fn run(tier: Tier) -> i32 {
             }
             WOutcome::Hang => {
                 *outcomes.lock().unwrap().entry("hang".into()).or_insert(0) += 1;
-                coll.push(Violation::new("C07", "frontend/hang", "hang", format!("{}:{}", c.kind, c.origin), case(), "no answer within the deadline; worker killed"));
+                let site = if c.kind == "deep-nesting" || c.kind == "wide-match" { format!("frontend/hang/{}:{}", c.kind, c.origin) } else { "frontend/hang".to_string() };
+                coll.push(Violation::new("C07", site, "hang", format!("{}:{}", c.kind, c.origin), case(), "no answer within the deadline; worker killed"));
             }
             WOutcome::Died(s) => {
                 *outcomes.lock().unwrap().entry("abort".into()).or_insert(0) += 1;
-                coll.push(Violation::new("C07", "frontend/abort", "abort", format!("{}:{}", c.kind, c.origin), case(), format!("worker process died: {s}")));
+                let site = if c.kind == "deep-nesting" || c.kind == "wide-match" { format!("frontend/abort/{}:{}", c.kind, c.origin) } else { "frontend/abort".to_string() };
+                coll.push(Violation::new("C07", site, "abort", format!("{}:{}", c.kind, c.origin), case(), format!("worker process died: {s}")));
             }
         }
     });
